@@ -287,6 +287,8 @@ class Repo:
         if c is None or not c.is_subclass_of('Enum') and 'Enum' not in c.base_names:
             return None
         for b in c.node.body:
+            if isinstance(b, ast.AnnAssign) and isinstance(b.target, ast.Name) and b.value is not None:
+                b = ast.Assign(targets=[b.target], value=b.value)
             if isinstance(b, ast.Assign) and any(
                     isinstance(t, ast.Name) and t.id == expr.attr for t in b.targets):
                 if any(x in c.base_names for x in ('str', 'int', 'float')):
